@@ -9,8 +9,9 @@ import "time"
 func Shrink(vals []uint32, test func([]uint32) bool, maxExec int, maxWall time.Duration) ([]uint32, int) {
 	start := time.Now() // wall clock used only for the budget, never inside a run
 	execs := 0
+	out := func() bool { return execs >= maxExec || time.Since(start) > maxWall }
 	try := func(c []uint32) bool {
-		if execs >= maxExec || time.Since(start) > maxWall {
+		if out() {
 			return false
 		}
 		execs++
@@ -27,7 +28,7 @@ func Shrink(vals []uint32, test func([]uint32) bool, maxExec int, maxWall time.D
 	cur = trim(cur)
 	// 1. truncation by bisection
 	lo, hi := 0, len(cur)
-	for lo < hi {
+	for lo < hi && !out() {
 		mid := (lo + hi) / 2
 		if try(cur[:mid]) {
 			hi = mid
@@ -39,11 +40,11 @@ func Shrink(vals []uint32, test func([]uint32) bool, maxExec int, maxWall time.D
 		cur = append([]uint32{}, cur[:hi]...)
 	}
 	improved := true
-	for pass := 0; improved && pass < 6; pass++ {
+	for pass := 0; improved && pass < 6 && !out(); pass++ {
 		improved = false
 		// 2. chunk deletion
-		for size := len(cur) / 2; size >= 1; size /= 2 {
-			for i := 0; i+size <= len(cur); {
+		for size := len(cur) / 2; size >= 1 && !out(); size /= 2 {
+			for i := 0; i+size <= len(cur) && !out(); {
 				c := append(append([]uint32{}, cur[:i]...), cur[i+size:]...)
 				if try(c) {
 					cur = c
@@ -52,12 +53,9 @@ func Shrink(vals []uint32, test func([]uint32) bool, maxExec int, maxWall time.D
 					i += size
 				}
 			}
-			if execs >= maxExec {
-				break
-			}
 		}
 		// 3. zero, then halve, single values
-		for i := 0; i < len(cur); i++ {
+		for i := 0; i < len(cur) && !out(); i++ {
 			if cur[i] == 0 {
 				continue
 			}
@@ -68,7 +66,7 @@ func Shrink(vals []uint32, test func([]uint32) bool, maxExec int, maxWall time.D
 				improved = true
 				continue
 			}
-			for v := cur[i] / 2; v > 0 && v < cur[i]; v = v / 2 {
+			for v := cur[i] / 2; v > 0 && v < cur[i] && !out(); v = v / 2 {
 				c[i] = v
 				if try(c) {
 					cur = append([]uint32{}, c...)
